@@ -997,6 +997,9 @@ pub fn run(check: &mut Check) {
     std::env::set_var("VCHECK_ENTROPY_SEED", check.seed.max(1).to_string());
     let init = json!({"tier": tier.name()}).to_string();
     let mut pool = Pool::new("crashx", &init, report::ncpu(), &scratch);
+    // generous: a job that runs into this limit is reported as a hang of the library, and on a busy
+    // machine the largest commits' jobs took more than the default two minutes
+    pool.job_timeout = std::time::Duration::from_secs(900);
     let parts = 8usize;
     let mut jobs = vec![];
     let mut meta = vec![];
